@@ -2,7 +2,7 @@
 """usage: tools/install_seed.py <PROP> <X> [ported-patch]  -- copy a verified seeded change into /verif/seeded/<PROP>_<X>/"""
 import json, os, shutil, sys
 P, X = sys.argv[1], sys.argv[2]
-src = f"/tmp/seed_out/{P}"; dst = f"/verif/seeded/{P}_{X}"
+src = os.environ.get("SEEDROOT", "/tmp/seed_out") + f"/{P}"; dst = f"/verif/seeded/{P}_{X}"
 os.makedirs(dst, exist_ok=True)
 patch = sys.argv[3] if len(sys.argv) > 3 else f"{src}/{X}.diff"
 if os.path.abspath(patch) != os.path.abspath(f"{dst}/patch.diff"):
